@@ -27,8 +27,9 @@ PID = "C04"
 
 
 def design(run):
-    cfgs = ["MC_QL_qselect.cfg", "MC_QL_insert.cfg"] + (["MC_QL_select.cfg", "MC_QL_stream.cfg", "MC_QL_foreign.cfg", "MC_QL_live.cfg"] if run.thorough() else [])
-    return Q.design(PID, cfgs, nonvac=[("MC_QL_unfixed_select.cfg", "PacketBoundary")] + ([("MC_QL_unfixed_stream.cfg", "PacketBoundary")] if run.thorough() else []))
+    cfgs = ["MC_QL_qselect.cfg", "MC_QL_insert.cfg", "MC_QL_wbreak.cfg"] + (["MC_QL_select.cfg", "MC_QL_stream.cfg", "MC_QL_foreign.cfg", "MC_QL_live.cfg"] if run.thorough() else [])
+    return Q.design(PID, cfgs, nonvac=[("MC_QL_unfixed_select.cfg", "PacketBoundary"), ("MC_QL_unfixed_wbreak.cfg", "PacketBoundary")] +
+                    ([("MC_QL_unfixed_stream.cfg", "PacketBoundary")] if run.thorough() else []))
 
 
 def scenarios(run):
@@ -91,6 +92,23 @@ def scenarios(run):
         for ir in (0, 1):
             add(Q.cfg("stream", Q.S("hdr", "eos"), plan=pl, init_rows=ir))
             add(Q.cfg("stream", Q.S("hdr", "eosEarly"), plan=pl, init_rows=ir), sched="SVRRSVRRR")
+    # (h) the peer stops reading (a write blocks), the server's answer - an exception, the end of the stream - arrives and is
+    #     consumed meanwhile, then the connection breaks under the blocked write, having taken none / a few / many bytes of it
+    for scn, kw in (("select", {}), ("insert", {"init_rows": 1}),
+                    ("stream", {"plan": [Q.Pl("append", "nil"), Q.Pl("reset", "eof")], "init_rows": 1})):
+        for s in ([Q.S("exc"), Q.S("hdr", "exc"), Q.S("hdr", "eos")] if scn != "select" else [Q.S("exc"), Q.S("hdr", "data", "eos")]):
+            for p in range(0, 6):
+                for mid in ("V" * len(s) + "RRRR" + "WW", "V" * len(s) + "RR", "", "C" + "WW"):
+                    for bb in (0, 3, 40):
+                        if bb == 40 and not T and p % 2:
+                            continue
+                        out.append(Q.scenario("c04-%d" % (len(out) + 1), Q.cfg(scn, s, **kw), sched="S" * p + "Z" + "S" * 8 + mid + "B" + "SS",
+                                              compression=rng.choice(["disabled", "lz4"])))
+                        out[-1].update({"breakBytes": bb, "drainBreak": True})
+    behs, _ = Q.tlc_behaviours(PID, "Gen_QL_wbreak.cfg", 2000 if T else 200, run.seed + 3)
+    for c, sched in behs:
+        add(Q.from_tlc_cfg(c), sched=sched, compression=rng.choice(["disabled", "lz4"]))
+        out[-1].update({"breakBytes": rng.choice([0, 3, 40]), "drainBreak": True})
     # (g) random schedules over the whole universe
     for i in range(4000 if T else 400):
         scn = rng.choice(["select", "insert", "stream"])
